@@ -29,7 +29,7 @@ for hp in sorted(glob.glob(os.path.join(root, 'harness', 'C*', 'harness.json')))
     if any(u.get('rewrite') or u.get('rewrite_thorough') for u in h['units']):
         engines_used.setdefault('rewrite', []).append(pid)
     if any('GOMODCACHE' in k for u in h['units'] for k in (u.get('extra') or {})):
-        engines_used.setdefault('gonum-overlay', []).append(pid)
+        engines_used.setdefault('module-overlay', []).append(pid)
 na = []
 for p in props:
     if p['id'] not in claimed:
@@ -39,7 +39,7 @@ engines = [
     {'name': 'E2', 'path': 'engine/vr + harness/*', 'kind_free_text': 'sequential bounded-exhaustive / explicit-state exploration of operation sequences, environment answers and input shapes against Go reference models'},
     {'name': 'E3', 'path': 'harness/C01', 'kind_free_text': 'crash enumeration over a logged in-memory storage client (every storage-call boundary, crash chains)'},
     {'name': 'E4', 'path': 'harness/C07, harness/C08', 'kind_free_text': 'reflective payload universe over the generated data-model / protobuf structs (every field, every one-of alternative, boundary values; 1-2 deviations from the zero payload) and operation programs against plain-Go reference models'},
-    {'name': 'gonum-overlay', 'path': 'harness/shared/gonum_tarjan.go.txt', 'kind_free_text': 'build-time overlay of gonum graph/topo/tarjan.go that hands the tie-breaking of topological sorts (Go map iteration order in the real code) to the harness: canonical order for deterministic replay, exhaustive enumeration of traversals in C10/service'},
+    {'name': 'module-overlay', 'path': 'harness/shared/*.go.txt', 'kind_free_text': 'build-time overlays of single files of third-party modules that own nondeterminism the scheduler cannot see: gonum graph/topo/tarjan.go (tie-breaking of topological sorts = Go map iteration order in the real code; canonical order for deterministic replay, exhaustive enumeration of traversals in C10/service) and cenkalti/backoff exponential.go (the random draw of the randomised retry interval; extremes enumerated in C05)'},
     {'name': 'rewrite', 'path': 'engine/rewrite', 'kind_free_text': 'syntactic instrumenter (go/ast) applied at check time through go build -overlay; /repo is never edited'},
 ]
 for e in engines:
